@@ -72,7 +72,7 @@ struct Written {
     last: Option<u64>,
     count: i64,
     recs: Vec<String>, // Coq records
-    dests: Vec<(u64, Option<i64>)>,
+    dests: Vec<(u64, String)>, // label, Coq wdest term
 }
 
 fn write_and_read(forest: &[Item], npages: u32, cfg: u64) -> Result<Written, String> {
@@ -113,6 +113,19 @@ fn write_and_read(forest: &[Item], npages: u32, cfg: u64) -> Result<Written, Str
         None => 0,
         o => return Err(format!("root /Count: {o:?}")),
     };
+    // page object numbers in document order (the library writes a flat /Kids array)
+    let mut page_objs: Vec<u64> = vec![];
+    if let Some(PdfObject::Reference(pn, _)) = cat.get("Pages") {
+        if let Ok(PdfObject::Dictionary(pd)) = rd.get_object(*pn, 0) {
+            if let Some(PdfObject::Array(k)) = pd.get("Kids") {
+                for i in 0..k.len() {
+                    if let Some(PdfObject::Reference(n, _)) = k.get(i) {
+                        page_objs.push(*n as u64);
+                    }
+                }
+            }
+        }
+    }
     // collect every outline item dictionary of the file by scanning all objects (not by following links)
     let mut recs = vec![];
     let mut dests = vec![];
@@ -152,12 +165,15 @@ fn write_and_read(forest: &[Item], npages: u32, cfg: u64) -> Result<Written, Str
         ));
         let dest = match d.get("Dest") {
             Some(PdfObject::Array(a)) => match a.get(0) {
-                Some(PdfObject::Integer(i)) => Some(*i),
-                Some(PdfObject::Reference(_, _)) => Some(-2),
-                _ => Some(-1),
+                Some(PdfObject::Integer(i)) => format!("WInt {}", coq_z(*i as i128)),
+                Some(PdfObject::Reference(n, _)) => format!(
+                    "WRef {}",
+                    coq_opt(page_objs.iter().position(|p| *p == *n as u64).map(|x| x.to_string()))
+                ),
+                _ => "WOther".to_string(),
             },
-            None => None,
-            _ => Some(-1),
+            None => "WNone".to_string(),
+            _ => "WOther".to_string(),
         };
         dests.push((label, dest));
     }
@@ -171,7 +187,7 @@ fn flat<'a>(f: &'a [Item], out: &mut Vec<&'a Item>) {
     }
 }
 
-fn emit(out: &mut Out, forest: &[Item], npages: u32, cfg: u64, class: &str) {
+fn emit(out: &mut Out, dout: &mut Out, forest: &[Item], npages: u32, cfg: u64, class: &str) {
     let js = json!({"forest": forest.iter().map(item_json).collect::<Vec<_>>(), "npages": npages, "cfg": cfg});
     let w = match catch(std::panic::AssertUnwindSafe(|| write_and_read(forest, npages, cfg))) {
         Ok(Ok(w)) => w,
@@ -188,16 +204,14 @@ fn emit(out: &mut Out, forest: &[Item], npages: u32, cfg: u64, class: &str) {
         out.count("empty_forest_no_outlines_entry");
         return;
     }
-    // every item resolves to the authored page: the /Dest page element is the authored page number
+    // every item resolves to the authored page: judged in Coq (channel dest)
     let mut all = vec![];
     flat(forest, &mut all);
-    for it in &all {
-        let got = w.dests.iter().find(|(l, _)| *l == it.label).map(|(_, d)| *d);
-        let want = it.page.map(|p| p as i64);
-        if got != Some(want) {
-            out.impl_failures.push(json!({"what": format!("item L{} destination page {:?}, authored {:?}", it.label, got, want), "case": js}));
-        }
-    }
+    let dcoq = coq_list(all.iter().map(|it| {
+        let w = w.dests.iter().find(|(l, _)| *l == it.label).map(|(_, d)| d.clone()).unwrap_or("WOther".into());
+        format!("({}, {}, {})", it.label, coq_opt(it.page.map(|p| p.to_string())), w)
+    }));
+    dout.push(dcoq, js.clone(), class, all.iter().any(|i| i.page.is_some()));
     if w.recs.len() != all.len() {
         out.impl_failures.push(json!({"what": format!("{} outline item dictionaries written for {} authored items", w.recs.len(), all.len()), "case": js}));
     }
@@ -222,10 +236,12 @@ pub fn run(ctx: &Ctx) {
     let header = "From OxVerif Require Import Base.Util C28.Model.\nOpen Scope Z_scope.";
     let mut out = Out::new(ctx, header, "list item * N * option N * option N * Z * list rec", "outline_code");
     out.shard_size = 60;
+    let mut dout = Out::new(ctx, header, "list (N * option N * wdest)", "dest_code");
+    dout.shard_size = 400;
     if let Some(cases) = ctx.replay_cases() {
         for c in cases {
             let forest: Vec<Item> = c["forest"].as_array().unwrap().iter().map(item_from).collect();
-            emit(&mut out, &forest, c["npages"].as_u64().unwrap_or(3) as u32, c["cfg"].as_u64().unwrap_or(0), "replay");
+            emit(&mut out, &mut dout, &forest, c["npages"].as_u64().unwrap_or(3) as u32, c["cfg"].as_u64().unwrap_or(0), "replay");
         }
     } else {
         // small shapes exhaustively: all forests with <= 4 items and every open/closed assignment
@@ -263,7 +279,7 @@ pub fn run(ctx: &Ctx) {
                     let mut f = sh.clone();
                     let mut next = 0;
                     relabel(&mut f, &mut next, bits);
-                    emit(&mut out, &f, 3, (bits + n as u64) % 2, &format!("exhaustive_{n}"));
+                    emit(&mut out, &mut dout, &f, 3, (bits + n as u64) % 2, &format!("exhaustive_{n}"));
                 }
             }
         }
@@ -279,8 +295,9 @@ pub fn run(ctx: &Ctx) {
                 f.truncate(2);
             }
             let cfg = match r.below(20) { 0 => 3, 1..=6 => 1, _ => 0 }; // object streams (cfg 3) are slow to reopen: /Size 1000001
-            emit(&mut out, &f, npages, cfg, &format!("random_depth{depth}"));
+            emit(&mut out, &mut dout, &f, npages, cfg, &format!("random_depth{depth}"));
         }
     }
     out.finish("outline");
+    dout.finish("dest");
 }
